@@ -63,6 +63,17 @@ class Fig(Rec):
         r, c = self.grid
         return [[None] * c for _ in range(r)]
 
+    def subplots(self, nrows=1, ncols=1, **k):
+        """Figure.subplots: NEW axes are added to the figure (behind the ones it already has in fig.axes)"""
+        new = [Rec("axes", log=self._log) for _ in range(int(nrows) * int(ncols))]
+        self.axes.extend(new)
+        object.__setattr__(self, "grid", (int(nrows), int(ncols)))
+        self._log.append((self, "fig.subplots", (nrows, ncols), k))
+        return new if len(new) > 1 else new[0]
+
+    def get_axes(self):
+        return list(self.axes)
+
 
 def install_plot_models(it: Interp, log):
     def make_subplots(rows=1, cols=1, **k):
@@ -75,8 +86,20 @@ def install_plot_models(it: Interp, log):
         f = Fig(log, axes=axes, grid=(int(nrows), int(ncols)))
         log.append((f, "plt.subplots", (nrows, ncols), k))
         return f, axes
+    figures = {}
+
+    def plt_figure(num=None, **k):
+        """pyplot keeps its figures: plt.figure(num) with a number / label that is still open hands out THAT figure again"""
+        if num is not None and num in figures:
+            return figures[num]
+        f = Fig(log, axes=[], grid=None)
+        log.append((f, "plt.figure", (num,), k))
+        if num is not None:
+            figures[num] = f
+        return f
     it.hooks["plotly.subplots.make_subplots"] = make_subplots
     it.hooks["matplotlib.pyplot.subplots"] = plt_subplots
+    it.hooks["matplotlib.pyplot.figure"] = plt_figure
     it.hooks["plotly.graph_objects.Scatter"] = lambda **k: Rec("scatter", kwargs=k, log=log)
     it.hooks["plotly.graph_objects.Sankey"] = lambda **k: Rec("sankey", kwargs=k, log=log)
     it.hooks["plotly.graph_objects.Figure"] = lambda *a, **k: Rec("go.Figure", args=a, kwargs=k, log=log)
@@ -345,6 +368,48 @@ def one_plot_case(prog, rep, fails, rid, cls_name, dims, roles, by, xarr, chart)
         note(fails, rid, "ArrayPlotter._plot_subplot", inp, "; ".join(problems[:3]))
 
 
+def pyplot_history_case(prog, rep, fails):
+    """two pyplot figures made one after the other in the same process with the SAME title: every line of the second array is
+    drawn into axes that hold no line of the first"""
+    rid = "C20.plotted-lines"
+    for title in ("same title", None):
+        w = World(prog, "concrete")
+        it = w.it
+        log = []
+        install_plot_models(it, log)
+        first_axes = set()
+        ok, msg = True, ""
+        for n, name in enumerate(("y1", "y2")):
+            arr = w.array(name, ("t", "a"))
+            kw = dict(array=arr, intra_line_dim="t", linecolor_dim="a")
+            if title is not None:
+                kw["title"] = title
+            kind, pl = run_guarded(lambda: it.construct(prog.cls("PyplotArrayPlotter"), [], kw))
+            if kind != "ok":
+                ok, msg = False, f"valid plotter settings were refused: {getattr(pl, 'msg', pl)!s:.120}"
+                break
+            start = len(log)
+            kind, fig = run_guarded(lambda: it.call_method(pl, "plot"))
+            if kind != "ok":
+                ok, msg = False, f"plot() ended with {kind}: {getattr(fig, 'msg', fig)!s:.150}"
+                break
+            drawn = [(obj, a) for obj, nm, a, k in log[start:] if nm in ("plot", "scatter", "fill_between") and isinstance(obj, Rec) and obj._kind == "axes"]
+            if n == 0:
+                first_axes = {id(o) for o, _ in drawn}
+            else:
+                reused = [a for o, a in drawn if id(o) in first_axes]
+                foreign = [a for o, a in drawn if len(a) > 1 and isinstance(a[1], AArr) and "y1" in NP.show(a[1].term)]
+                if reused:
+                    ok, msg = False, f"{len(reused)} line(s) of the second array are drawn into axes that already hold the first array's lines (the figure of the first plot is reused)"
+                elif foreign or len(drawn) != len(w.items("a")):
+                    ok, msg = False, f"the second figure shows {len(drawn)} line(s), {len(foreign)} of them with the first array's data"
+        rep.evaluations += 1
+        inp = {"plotter": "PyplotArrayPlotter", "history": "plot of y1, then plot of y2", "title": title}
+        rep.oblige(rid, ok, where="PyplotArrayPlotter.plot", what=str(inp), distinct=(rid, "history", str(title)))
+        if not ok:
+            note(fails, rid, "PyplotArrayPlotter.get_fig", inp, msg)
+
+
 def refusal_cases(prog, rep, fails):
     rid = "C20.refusals"
     w = World(prog, "concrete")
@@ -400,6 +465,7 @@ def run(prog, rep):
             c = fails.get(k)
             fails[k] = (c[0] + count, c[1], c[2]) if c else (count, inp, msg)
     refusal_cases(prog, rep, fails)
+    pyplot_history_case(prog, rep, fails)
     for (rule, qual), (count, inp, msg) in sorted(fails.items()):
         module, line, sig = _locate(prog, qual)
         rep.add(Finding("C20", rule, module, qual, sig, f"{msg} [{count} case(s)]", line=line, abstract_input=inp))
